@@ -14,6 +14,7 @@ exploits: it truncates the list.
 Nothing in here reads a real clock or really sleeps.
 """
 import _thread
+import os
 import heapq
 import random
 import sys
@@ -57,6 +58,9 @@ class SimStop(BaseException):
 STALL_DURATIONS = (0.1, 0.7, 2.5, 6.0, 12.0, 40.0)
 
 
+KDEBUG = os.environ.get('VERIF_KDEBUG')
+
+
 class Kernel:
     EPOCH0 = 1893456000.0  # 2030-01-01 UTC: nothing written behind our back can look newer
 
@@ -98,6 +102,8 @@ class Kernel:
         self.preempt_hook = None  # optional callable for reach probes
         self.pool_delay_p = 0.0  # "slow pool worker" fault: a queued pool task is picked up late
         self.pool_delays = 0
+        self.slow_pool = None  # (n, p): tasks of the n-th pool created in this run start 6-40 s late with probability p
+        self.slow_pool_delays = 0
 
     # --- decisions -------------------------------------------------------------------------
     def decide(self, n):
@@ -234,6 +240,12 @@ class Kernel:
             d = STALL_DURATIONS[self.decide(len(STALL_DURATIONS))]
             self.stalls += 1
             self.stall_time += d
+            if KDEBUG:  # triage aid: who was held up, where and for how long (never draws from the PRNG or the clock)
+                import traceback
+                fr = [f for f in traceback.extract_stack()[:-1] if '/sim/' not in f.filename][-3:]
+                with open(KDEBUG, 'a') as fh:
+                    fh.write('%.6f stall %ss %s at %s\n' % (self.clock, d, getattr(me, 'name', '?'),
+                                                           ' < '.join('%s:%d:%s' % (f.filename.split('/')[-1], f.lineno, f.name) for f in reversed(fr))))
             self.block(me, ('stall', d), d)
             return
         if not self.runnable:
@@ -735,6 +747,7 @@ class SimThreadPoolExecutor:
         self._idle = []
         self._workers = []
         self._prefix = thread_name_prefix or ('Pool%d' % n)
+        self._n = n
         self._shutdown = False
 
     def submit(self, fn, *args, **kwargs):
@@ -769,6 +782,14 @@ class SimThreadPoolExecutor:
                 # reorders it against chains that run on other threads
                 d = STALL_DURATIONS[k.decide(4)]
                 k.pool_delays += 1
+                k.stall_time += d
+                k.block(me, ('pool-delay', d), d)
+            elif k.slow_pool and k.slow_pool[0] == self._n and k.pool_delays < 40 and k.decide_p(k.slow_pool[1]):
+                # "slow node" aimed at one scheduler: the n-th pool of the run (in creation order) is held up for a long
+                # time now and then, so what it delivers (state emissions, notifications) arrives late and in bursts
+                d = STALL_DURATIONS[3 + k.decide(3)]
+                k.pool_delays += 1
+                k.slow_pool_delays += 1
                 k.stall_time += d
                 k.block(me, ('pool-delay', d), d)
             try:
